@@ -9,7 +9,7 @@ import impl
 TABLES = ["Registries"]
 LAKE_TARGETS = ["Moclo.Props.C20", "Moclo.Tables.Registries"]
 THEOREMS = ["Moclo.C20." + t for t in ["lookup_absent", "setdefault_keys", "setdefault_lookup", "add_spec",
-                                       "combine_spec", "len_eq_keys", "iterated_key_found", "embedded_coherent"]]
+                                       "combine_spec", "len_eq_keys", "iterated_key_found", "embedded_coherent", "resistance_from_table", "resistance_known"]]
 RULE = ("the five embedded registries, every item (exhaustive); in-memory directories of typed GenBank plasmids "
         "under supported (.gb, .gbk) and unsupported extensions, dotted stems, sub-directories and non-GenBank "
         "files; combinations of embedded, directory and synthetic registries with overlapping and repeated "
@@ -243,6 +243,44 @@ def check_combine_real(ctx, case):
     ctx.case(case, nontrivial=len(exp) >= 2)
 
 
+def check_resistance(ctx, case):
+    """which antibiotic a plasmid is selected on: the first feature carrying a cassette tag among its labels
+    decides; two different tags on one feature are refused; nothing tagged is refused"""
+    from moclo.registry._utils import _ANTIBIOTICS
+    feats = case["labels"]
+    exp = "notfound"
+    for labels in feats:
+        tags = sorted(set(labels) & set(_ANTIBIOTICS))
+        if len(tags) > 1:
+            exp = "multiple"
+            break
+        if len(tags) == 1:
+            exp = "ok:" + impl.str_code(_ANTIBIOTICS[tags[0]])
+            break
+    got = impl.run(("RESIST", feats))
+    if got != exp:
+        ctx.fail("find_resistance on features labelled {} answers {} instead of {}".format(feats, got, exp), case)
+    if got.startswith("ok:") and got[3:] not in [impl.str_code(x) for x in
+                                                 ("Kanamycin", "Chloramphenicol", "Ampicillin", "Spectinomycin")]:
+        ctx.fail("find_resistance returns something that is not a known antibiotic", case)
+    ctx.note("resistance:" + got.split(":")[0])
+    ctx.case(case, nontrivial=len(feats) >= 2, key=["res", feats])
+    ctx.op(("RESIST", feats), case, reply=got)
+
+
+def gen_labels(rng):
+    from moclo.registry._utils import _ANTIBIOTICS
+    tags = sorted(_ANTIBIOTICS)
+    other = ["cat", "ori", "CmR ", "cmr", "KanR2", "AmpR promoter", "bla", "rep", "GFP", "resistance marker"]
+    feats = []
+    for _ in range(rng.randint(0, 5)):
+        n = rng.choice([0, 1, 1, 2, 3])
+        feats.append([rng.choice(tags if rng.random() < 0.3 else other) for _ in range(n)])
+    if feats and rng.random() < 0.2:
+        feats[rng.randrange(len(feats))] += [rng.choice(tags)] * 2      # the same tag twice is one cassette
+    return {"labels": feats}
+
+
 def gen_dir(rng, nsrc):
     nfiles = rng.choice([0, 1, 2, 3, 5, 8])
     stems = set()
@@ -262,6 +300,8 @@ def gen_dir(rng, nsrc):
 def run(ctx):
     rng = ctx.rng
     check_embedded(ctx)
+    for _ in range(ctx.budget(150, 6000)):
+        ctx.guard(check_resistance, gen_labels(rng))
     nsrc = len(source_records(ctx))
     for _ in range(ctx.budget(60, 1500)):
         d = gen_dir(rng, nsrc)
@@ -292,6 +332,8 @@ def run(ctx):
 
 
 def check_case(ctx, case):
+    if "labels" in case and "files" not in case:
+        return ctx.guard(check_resistance, case)
     if "registry" in case:
         check_embedded(ctx)
     elif "members" in case:
